@@ -144,4 +144,180 @@ theorem encNew_ok (ver : Ver) (H : Bytes → Bytes) (T0 : Trie) (hd : Hd) :
     simp only [encNew, hkid, encOptValue_ok ver H T0 _ dvo hvals, abs, wOf]
     rw [encBranch_eq]
 
+/-! ### the database after the batch holds the new trie -/
+
+def contentOf (ver : Ver) (H : Bytes → Bytes) (T0 : Trie) : Pos → Bytes
+  | .node p => encodeNode ver H (subAt T0 p)
+  | .val k => (lookup T0 k).getD []
+
+/-- every row of a position at or below `q` can be read -/
+def ReadBelow (ver : Ver) (H : Bytes → Bytes) (T0 : Trie) (get : Bytes → Option Bytes) (q : Nibs) : Prop :=
+  ∀ pos, ValidPos ver H T0 pos → Below q pos →
+    get (rowOf ver H T0 pos) = some (contentOf ver H T0 pos)
+
+theorem read_value {ver : Ver} {H : Bytes → Bytes} {T0 : Trie} {get : Bytes → Option Bytes}
+    {q fk : Nibs} {v : Bytes} (hr : ∀ pos, ValidPos ver H T0 pos → pos = .val fk →
+      get (rowOf ver H T0 pos) = some (contentOf ver H T0 pos))
+    (hl : lookup T0 fk = some v) (hm : mustBeHashed ver v = true) :
+    get (rowKey fk (H v)) = some v := by
+  have := hr (.val fk) ⟨v, hl, hm⟩ rfl
+  simpa [rowOf, contentOf, hl] using this
+
+/-- an untouched subtree of `T0` is stored wherever all its rows can be read -/
+theorem stored_sub (ver : Ver) (H : Bytes → Bytes) (T0 : Trie) (get : Bytes → Option Bytes) (t : Trie) :
+    ∀ q, subAt T0 q = t → ReadBelow ver H T0 get q → Stored ver H get t q := by
+  induction t with
+  | nil => intro _ _ _; trivial
+  | leaf pk v =>
+    intro q hq hr hm
+    have hl : lookup T0 (q ++ pk) = some v := by
+      rw [lookup_subAt T0 q pk (by rw [hq]; simp), hq]; simp
+    exact read_value (q := q) (fun pos hv hp => hr pos hv (by rw [hp]; exact List.prefix_append _ _)) hl hm
+  | branch pk v cs ih =>
+    intro q hq hr
+    refine ⟨?_, fun i => ⟨?_, ?_⟩⟩
+    · intro x hx hm
+      have hl : lookup T0 (q ++ pk) = some x := by
+        rw [lookup_subAt T0 q pk (by rw [hq]; simp), hq, lookup_branch_self, hx]
+      exact read_value (q := q) (fun pos hv hp => hr pos hv (by rw [hp]; exact List.prefix_append _ _)) hl hm
+    · intro hn hl
+      have hs := subAt_step hq i
+      have hne : cs i ≠ nil := fun x => by rw [x] at hn; simp [Trie.isNil] at hn
+      have := hr (.node (q ++ pk ++ [i])) ⟨by rw [hs]; exact hne, fun _ => by rw [hs]; exact hl⟩
+        (by rw [List.append_assoc]; exact List.prefix_append _ _)
+      simp only [rowOf, contentOf, hs] at this
+      exact this
+    · refine ih i _ (subAt_step hq i) ?_
+      intro pos hv hb
+      exact hr pos hv (below_trans (by rw [List.append_assoc]; exact List.prefix_append _ _) hb)
+
+theorem wOf_cached (ver : Ver) (H : Bytes → Bytes) (T0 : Trie) (hd : Hd) (pre : Nibs)
+    (h : (hd.isMem && hd.cached.isNone) = false) : wOf ver H T0 hd pre = [] := by
+  cases hd with
+  | leaf c pk dv => cases c <;> simp_all [Hd.isMem, Hd.cached, wOf]
+  | branch c pk dvo cs => cases c <;> simp_all [Hd.isMem, Hd.cached, wOf]
+  | none => rfl
+  | persisted _ => rfl
+  | empty _ => rfl
+
+/-- after the batch: if every row that `commit` writes for `hd` can be read, and every row of a
+    position that `hd` still refers to can be read, then the trie `hd` stands for is stored -/
+theorem stored_commit (ver : Ver) (H : Bytes → Bytes) (T0 : Trie) (get : Bytes → Option Bytes)
+    (hd : Hd) : ∀ pre, Ok ver H T0 hd pre →
+      (∀ k x, WOp.put k x ∈ wOf ver H T0 hd pre → get k = some x) →
+      (∀ pos, ValidPos ver H T0 pos → Needs hd pre pos →
+        get (rowOf ver H T0 pos) = some (contentOf ver H T0 pos)) →
+      Stored ver H get (abs T0 hd pre) pre := by
+  induction hd with
+  | none => intro _ _ _ _; trivial
+  | empty c => intro _ hok; exact hok.elim
+  | persisted h =>
+    intro pre hok _ hn
+    exact stored_sub ver H T0 get _ pre rfl (fun pos hv hb => hn pos hv hb)
+  | leaf c pk dv =>
+    intro pre hok hw hn
+    cases c with
+    | some h =>
+      obtain ⟨_, habs, _⟩ := hok.2 h rfl
+      show Stored ver H get (leaf pk (absV T0 (pre ++ pk) dv)) pre
+      rw [habs]
+      exact stored_sub ver H T0 get _ pre rfl (fun pos hv hb => hn pos hv (Or.inl ⟨rfl, hb⟩))
+    | none =>
+      intro hm
+      change mustBeHashed ver (absV T0 (pre ++ pk) dv) = true at hm
+      show get (rowKey (pre ++ pk) (H (absV T0 (pre ++ pk) dv))) = some (absV T0 (pre ++ pk) dv)
+      cases dv with
+      | inl x => have := hok.1; simp only [OkV] at this; simp [absV, this] at hm
+      | fresh x => exact hw _ _ (by simp [wOf, valW, absV])
+      | ref h =>
+        obtain ⟨v, hl, hmv, rfl⟩ := hok.1
+        have : absV T0 (pre ++ pk) (.ref (H v)) = v := by simp [absV, hl]
+        rw [this]
+        exact read_value (q := pre) (fun pos hv hp => hn pos hv (Or.inr ⟨rfl, hp⟩)) hl hmv
+  | branch c pk dvo cs ih =>
+    intro pre hok hw hn
+    obtain ⟨hvals, hkids, hcl⟩ := hok
+    cases c with
+    | some h =>
+      obtain ⟨_, habs, _⟩ := hcl h rfl
+      rw [habs]
+      exact stored_sub ver H T0 get _ pre rfl (fun pos hv hb => hn pos hv (Or.inl ⟨rfl, hb⟩))
+    | none =>
+      simp only [abs]
+      refine ⟨?_, fun i => ⟨?_, ?_⟩⟩
+      · intro x hx hm
+        cases dvo with
+        | none => cases hx
+        | some dv =>
+          simp only [Option.map_some, Option.some.injEq] at hx
+          subst hx
+          cases dv with
+          | inl y => have := hvals _ rfl; simp only [OkV] at this; simp [absV, this] at hm
+          | fresh y => exact hw _ _ (by simp [wOf, optValW, valW, absV])
+          | ref h =>
+            obtain ⟨v, hl, hmv, rfl⟩ := hvals _ rfl
+            have : absV T0 (pre ++ pk) (.ref (H v)) = v := by simp [absV, hl]
+            rw [this]
+            exact read_value (q := pre)
+              (fun pos hv hp => hn pos hv (Or.inr (Or.inl ⟨rfl, hp⟩))) hl hmv
+      · -- the row of child `i`
+        intro hnil hl
+        dsimp only at hnil hl ⊢
+        by_cases hnew : ((cs i).isMem && (cs i).cached.isNone) = true
+        · apply hw
+          simp only [wOf, List.mem_append, List.mem_flatMap]
+          right
+          refine ⟨i, List.mem_finRange i, ?_⟩
+          rw [if_pos hnew, if_pos hl]
+          simp
+        · -- a persisted or cached child: the row of its position
+          have hne : abs T0 (cs i) (pre ++ pk ++ [i]) ≠ nil := fun x => by
+            rw [x] at hnil; simp [Trie.isNil] at hnil
+          have hold : HashAt ver H T0 (pre ++ pk ++ [i]) (H (encodeNode ver H (subAt T0 (pre ++ pk ++ [i])))) ∧
+              abs T0 (cs i) (pre ++ pk ++ [i]) = subAt T0 (pre ++ pk ++ [i]) ∧
+              Needs (cs i) (pre ++ pk ++ [i]) (.node (pre ++ pk ++ [i])) := by
+            have hk := hkids i
+            cases hci : cs i with
+            | none => rw [hci] at hne; exact absurd rfl hne
+            | empty cc => rw [hci] at hk; exact hk.elim
+            | persisted h' =>
+              rw [hci] at hk
+              exact ⟨⟨hk.1, rfl, hk.2.2⟩, rfl, List.prefix_refl _⟩
+            | leaf cc cpk cdv =>
+              rw [hci] at hk hnew
+              cases cc with
+              | none => simp [Hd.isMem, Hd.cached] at hnew
+              | some h' =>
+                obtain ⟨hh, ha, _⟩ := hk.2 h' rfl
+                exact ⟨⟨hh.1, rfl, hh.2.2⟩, ha, Or.inl ⟨rfl, List.prefix_refl _⟩⟩
+            | branch cc cpk cdv ccs =>
+              rw [hci] at hk hnew
+              cases cc with
+              | none => simp [Hd.isMem, Hd.cached] at hnew
+              | some h' =>
+                obtain ⟨hh, ha, _⟩ := hk.2.2 h' rfl
+                exact ⟨⟨hh.1, rfl, hh.2.2⟩, ha, Or.inl ⟨rfl, List.prefix_refl _⟩⟩
+          obtain ⟨hh, ha, hnd⟩ := hold
+          have := hn (.node (pre ++ pk ++ [i])) (validPos_of_hashAt hh) (Or.inr (Or.inr ⟨i, hnd⟩))
+          rw [ha]
+          simp only [rowOf, contentOf] at this
+          exact this
+      · refine ih i _ (hkids i) ?_ ?_
+        · intro k x hk
+          by_cases hnew : ((cs i).isMem && (cs i).cached.isNone) = true
+          · apply hw
+            simp only [wOf, List.mem_append, List.mem_flatMap]
+            right
+            refine ⟨i, List.mem_finRange i, ?_⟩
+            rw [if_pos hnew]
+            exact List.mem_append_left _ hk
+          · have hnew' : ((cs i).isMem && (cs i).cached.isNone) = false := by
+              cases h : ((cs i).isMem && (cs i).cached.isNone)
+              · rfl
+              · exact absurd h hnew
+            rw [wOf_cached ver H T0 _ _ hnew'] at hk
+            cases hk
+        · intro pos hv hnp
+          exact hn pos hv (Or.inr (Or.inr ⟨i, hnp⟩))
+
 end Gossamer.C06
